@@ -140,6 +140,15 @@ def check(ctx, rep):
     fa = prog.fn("apply:f_apply")
     rep.require(fa.vararg is not None and fa.kwarg is not None, "f_apply must take *future_args, **future_kwargs")
     capture_rule(ctx, rep, fa.module)
+    # the inputs' outcomes travel through the chain of futures only: f_apply and its helpers never take a value
+    # out of an input future themselves (result() on a failed or cancelled input raises out of f_apply instead of
+    # failing the future it returns; on a pending one it blocks)
+    for fi in sorted([f for f in prog.functions.values() if f.module is fa.module and f.parent is None], key=lambda f: f.key):
+        ps0, it0 = ctx.paths(fi, None, depth=0)
+        for p in ps0:
+            for e in p.calls():
+                if e.fn is fi and q.call_name(e) in ("result", "exception") and isinstance(q.recv(e), tuple):
+                    rep.ob("R-PLUMB", "%s takes no outcome out of an input future itself" % fi.qualname, False, "%s() is called on %s while the chain is being built: if that input failed or was cancelled its exception is raised out of f_apply (instead of becoming the exception of the returned future); the outcome has to be passed on with with_map / with_flat_map" % (q.call_name(e), fmt(q.recv(e))), where_of(fi, e.node), trace_of(p, e.seq))
 
     # ---- the recursive worker
     cands = []
